@@ -217,6 +217,14 @@ def run_check(mod, pid, a, t0):
             path = fw.write_replay(pid, seed, nrep, payload)
             violations += 1
             replay_paths.append(path + " no-failing-input-found")
+    if violations == 0 and acc["spec_errors"]:
+        # the Spec oracle could not be evaluated on what the implementation produced (observations of
+        # an unexpected shape): the property is no longer shown to hold on these runs
+        path = fw.write_replay(pid, seed, nrep, {"property": pid, "kind": "no-failing-input-found",
+                                                   "correspondence": "Spec oracle could not be evaluated on the implementation's observations",
+                                                   "spec_errors": acc["spec_errors"][:10]})
+        violations += 1
+        replay_paths.append(path + " no-failing-input-found")
     for line in known_lines:
         print(line)
     for pth in replay_paths:
@@ -257,5 +265,4 @@ def run_check(mod, pid, a, t0):
     print(f"{pid} {tier} seed={seed}: theorems {lean['discharged']}/{lean['obligations']}, scenarios {acc['n']}, ops {acc['ops']}, spec evals {acc['specs']}, nontrivial-distinct {len(set(acc['hashes']))}, disagreements {len(acc['fail'])}, violations {violations}, {time.time()-t0:.1f}s")
     if acc["spec_errors"]:
         print("spec extraction errors:", acc["spec_errors"][:3], file=sys.stderr)
-        return 2
     return exit_code
